@@ -33,7 +33,6 @@ TRUSTED = [
     "xmiID assignment and annotation.sofa assignment inside Cas.add are not modelled (no query of C06 reads them; C08/C09)",
 ]
 ASSUMPTIONS = [
-    "no operation re-declares a predefined type name (the code accepts that and leaves two Type objects behind; C10/C12)",
     "ties in (begin, end) and all non-annotation structures of one type are ordered by id(): results are compared per "
     "concrete type as (begin, end) sequences and as label multisets",
     "select by Type object uses a Type of the CAS's own type system",
@@ -97,7 +96,7 @@ def _exhaustive(maxlen):
     for n in range(maxlen + 1):
         for word in itertools.product(range(len(EX_LETTERS)), repeat=n):
             k += 1
-            yield {"kind": "ex", "lenient": False, "univ": EX_UNIV, "fs": EX_FS,
+            yield {"kind": "ex", "lenient": False, "univ": EX_UNIV, "fs": EX_FS, "own": k % 3 == 0,
                    "ops": EX_PRE + [EX_LETTERS[i] for i in word] + _ex_probes(k), "npre": 3, "nprobe": len(_ex_probes(k)), "k": k}
 
 
@@ -199,8 +198,11 @@ def _random_history(rng, maxops):
                 created.add(n)
             elif q < 0.85 and created:
                 ops.append(["create_type", rng.choice(sorted(created)), ANNO])          # duplicate: ValueError
-            elif q < 0.93:
-                ops.append(["create_type", "t.Fin", rng.choice(FINAL)])                # final supertype: ValueError
+            elif q < 0.90:
+                fin = rng.choice(FINAL)                                                # final supertype: ValueError
+                ops.append(["create_type", "t.Fin", fin if rng.random() < 0.5 else fin.split(".")[-1]])
+            elif q < 0.94:
+                ops.append(["create_type", rng.choice([ANNO, TOP, "uima.cas.Sofa"]), TOP])  # predefined name: ValueError
             else:
                 ops.append(["create_type", "t.Orphan", "no.Such"])                     # TypeNotFoundError
         elif r < 0.90:
@@ -264,11 +266,14 @@ def run_impl(cassis, sc):
     handles = [cas]
     table = {f[0]: f for f in sc["fs"]}
     objs, lab_of = {}, {}
+    # instantiating a Type of a fresh type system compiles a class (1 ms): two thirds of the short exhaustive histories
+    # take all their structures from the cached second type system (same type names; the CAS only looks at names)
+    own = sc.get("own", True)
 
     def obj(l):
         if l not in objs:
             _, t, b, e = table[l]
-            T = ts.get_type(t) if ts.contains_type(t, True) else fts.get_type(t)
+            T = ts.get_type(t) if own and ts.contains_type(t, True) else fts.get_type(t)
             o = T() if b is None else T(begin=b, end=e)
             objs[l] = o
             lab_of[id(o)] = l
@@ -387,10 +392,12 @@ def expected(sc):
                 out.append(("err", "KeyError"))
         elif kind == "create_type":
             n, sup = op[1], op[2]
-            if sup in FINAL or n in types:
+            if n in types:
                 out.append(("err", "ValueError"))
             elif _resolve(types, sup) is None:
                 out.append(("err", "TypeNotFoundError"))
+            elif _resolve(types, sup) in FINAL:
+                out.append(("err", "ValueError"))
             else:
                 types[n] = _resolve(types, sup)
                 out.append(("ok",))
@@ -639,8 +646,8 @@ MANIFEST = {
                   "raises and changes no later observation; operations through one view never change another. The model is tied to /repo on "
                   "every run by evaluating it inside Coq on the histories the implementation was run on.",
     "level_note": "Trusted: Coq kernel + vm_compute; hand-written model coq/Select.v (SortedKeyList add/remove by contract, set iteration "
-                  "order as a quantified argument, create_type as leaf insertion; re-declaring predefined types and feature assignment to "
-                  "indexed structures are outside the history alphabet); harness driving the public API. Print Assumptions: closed under "
+                  "order as a quantified argument, create_type as leaf insertion; feature assignment to "
+                  "indexed structures is outside the history alphabet); harness driving the public API. Print Assumptions: closed under "
                   "the global context for all 13 theorems.",
     "technique": "Coq refinement proof (forward simulation between two instances of one executable machine) + in-Coq behavioural "
                  "correspondence (exhaustive short histories, seeded random long histories) + bookkeeping oracle",
